@@ -7,7 +7,7 @@ import contracts.standins_overlap as B
 PROVED = [OV.get_window_size, OV.ow_do_compute_first, OV.ow_do_compute_later, CH.chunk_split]
 
 PROPERTY = Property(
-    "C09", "proof",
+    "C09", "exploration",
     contracts=PROVED,
     standins=[StandIn("OverlapWindowPlugin == whole-run computation over all chunkings (real code)", B.overlap_window, B.overlap_window.harness,
                       budget={"quick": 260, "thorough": 2500})],
